@@ -32,7 +32,7 @@ ASSUMPTIONS = [
     "representability of numbers at settings.decimals and numeric equality after re-import are not decided",
     "identifier names and single-line descriptions without '#' (property precondition)",
 ]
-FLOORS = {"RT-sem": 2, "T17": 1, "T16": 1, "T15": 2, "T13": 3, "T14": 6, "T4": 30, "T5": 18, "T6": 23, "T7": 7, "T8": 6, "T9": 50, "T10": 20, "T11": 1}
+FLOORS = {"RT-sem": 4, "R1-sem": 30, "H8": 2, "T17": 1, "T16": 1, "T15": 2, "T13": 1, "T9": 50, "T11": 1}
 
 KIND_BY_ANNOTATION = [("bool", "boolean"), ("float", "to_float"), ("SNorm", "snorm"), ("TNorm", "tnorm"),
                       ("Defuzzifier", "defuzzifier"), ("Activation", "activation"), ("str", "raw")]
@@ -59,33 +59,42 @@ def expected_conv(annotation: str) -> str | None:
 
 
 def run(check: Check) -> None:
-    p = check.program
-    components(check)
-    spellings(check)
-    term_tables(check)
-    component_parameter_tables(check)
-    elision_defaults(check)
-    registration(check)
-    field_coverage(check)
-    keywords(check)
-    line_syntax(check)
-    engine_threading(check)
-    from .common import component_truthiness
-
-    number_formatting(check)
-    component_truthiness(check, "T15")
-    from .common import unused_parameters
-
-    unused_parameters(check, "T16", {"FllExporter", "FllImporter", "Exporter", "Importer"})
+    from .pyroundtrip_sem import constructor_fidelity
     from .roundtrip_sem import roundtrip
 
-    roundtrip(check)  # RT-sem: export -> import -> export interpreted on model engines
-    from .pyroundtrip_sem import constructor_fidelity
-
+    # RT-sem: export -> import -> export interpreted on model engines that contain every component class, every flag in both states, every optional
+    # component present and absent. It *decides* the clauses the table rules T4-T8, T10, T13 (line syntax), T14 and T17 approximate pair by pair
+    # (which key is written and read, which attribute under it, value kinds, parameter order, what is elided, which field is covered, where the
+    # engine is threaded, how numbers are printed). Where every model engine was decided those rules have nothing to add - and, recognising ways
+    # of writing, they are what raises an alarm on a harmless rewrite - so they run only as a fallback, when the interpreter could not follow the code.
+    decided = roundtrip(check)
     constructor_fidelity(check)  # R1-sem: the importer's objects are built by the constructors: arguments are stored as given
+    if decided:
+        check.notes.append("RT-sem decided every model engine and text: the table rules T4-T8, T10, T13 line syntax, T14, T17 (its fallback) were not needed")
+    else:
+        components(check)
+        spellings(check)
+        term_tables(check)
+        component_parameter_tables(check)
+        elision_defaults(check)
+        field_coverage(check)
+        line_syntax(check)
+        engine_threading(check)
+    number_formatting(check)  # T17: every number Op.str formats (0-d and 1-d arrays too, which the model engines do not contain) is fixed-point at call-time decimals
+    registration(check)
+    keywords(check)
+    engine_blocks(check)
+    from .common import component_truthiness, memoisation_rule, unused_parameters
+
+    component_truthiness(check, "T15")
+    unused_parameters(check, "T16", {"FllExporter", "FllImporter", "Exporter", "Importer"})
+    memoisation_rule(check)  # H8: a memoised printer / parser answers from an earlier state of the object or of the settings
     if check.tier == "thorough":
-        corpus(check)
-    check.exhaustive_parts += ["writer/reader tables compared entry by entry"]
+        try:
+            corpus(check)
+        except AnalysisError as ex:
+            check.notes.append(f"T12 corpus conformance not run: the tables could not be extracted ({ex})")
+    check.exhaustive_parts += ["the round trip on model engines containing every component class"]
 
 
 # ------------------------------------------------------------------------------------------------ T4 / T5
@@ -1009,8 +1018,6 @@ def line_syntax(check: Check) -> None:
     first_only = parts is not None and (kw.get("maxsplit") == ("const", 1) or (len(parts[2]) > 1 and parts[2][1] == ("const", 1)))
     check.require(first_only, "T13", "FllImporter.extract_key_value/first-colon", "a line is split at its first colon only, so values (descriptions, rule text) may contain colons"
                   if first_only else "the line is split at every colon: a description or term containing ':' is rejected or truncated on re-import", loc(fn))
-    # engine(): every block is processed, with its own lines, in the order of the text - by interpretation on model documents
-    engine_blocks(check)
     sc = p.func("Operation.strip_comments")
     check.analysed(sc)
     src_ok = any(isinstance(x, ast.Call) and isinstance(x.func, ast.Attribute) and x.func.attr == "find" for x in ast.walk(sc.analysis_node))
